@@ -43,6 +43,227 @@ def fresh(expr: ast.AST) -> ast.AST:
     return ast.parse(ast.unparse(expr), mode="eval").body
 
 
+def fresh_stmts(stmts: Sequence[ast.stmt]) -> List[ast.stmt]:
+    return ast.parse("\n".join(ast.unparse(s) for s in stmts)).body if stmts else []
+
+
+def link_parents(tree: ast.AST, parent=None) -> ast.AST:
+    for n in ast.walk(tree):
+        for c in ast.iter_child_nodes(n):
+            c._parent = n          # type: ignore[attr-defined]
+    tree._parent = parent          # type: ignore[attr-defined]
+    return tree
+
+
+class _NoInline(Exception):
+    pass
+
+
+def _terminates(stmts) -> bool:
+    """The block never falls through to what follows it."""
+    if not stmts:
+        return False
+    last = stmts[-1]
+    if isinstance(last, (ast.Return, ast.Raise, ast.Continue, ast.Break)):
+        return True
+    if isinstance(last, ast.If):
+        return bool(last.orelse) and _terminates(last.body) and _terminates(last.orelse)
+    if isinstance(last, ast.Try) and not last.finalbody:
+        return _terminates(last.orelse or last.body) and all(_terminates(h.body) for h in last.handlers) and (bool(last.orelse) or _terminates(last.body))
+    return False
+
+
+def inline_module_helpers(mod, f: ast.FunctionDef, wanted, depth: int = 3) -> Tuple[ast.FunctionDef, List[str], List[str]]:
+    """A view of `f` in which calls of private module-level helpers selected by `wanted(helper def)` are replaced by the helper's body with the
+    arguments substituted (a `*args` parameter by the extra arguments of the call), at each call site on its own.  Handled positions of the call:
+    an expression statement, the whole right-hand side of an assignment, `return H(..)`, and the test of an `if` (bare or under `not`).  A `return`
+    inside the helper becomes, for an if-test, the caller's branch chosen by the returned constant; otherwise it must be in tail position.
+    -> (view, names inlined, reasons for the call sites left alone).  The original tree is never modified."""
+    inlined: List[str] = []
+    refused: List[str] = []
+    counter = [0]
+
+    def helper_of(call):
+        if not (isinstance(call, ast.Call) and isinstance(call.func, ast.Name) and call.func.id.startswith("_")):
+            return None
+        h = mod.find(call.func.id)
+        if not isinstance(h, ast.FunctionDef) or h.decorator_list or not wanted(h):
+            return None
+        return h
+
+    def body_for(h, call) -> List[ast.stmt]:
+        a = h.args
+        if a.kwonlyargs or a.kwarg or a.posonlyargs or call.keywords or any(isinstance(x, ast.Starred) for x in call.args):
+            raise _NoInline("signature / call shape")
+        if any(isinstance(x, (ast.Yield, ast.YieldFrom, ast.Await, ast.Global, ast.Nonlocal, ast.FunctionDef, ast.Lambda)) for st in h.body for x in ast.walk(st)):
+            raise _NoInline("generator / nested function")
+        params = [p.arg for p in a.args]
+        nreq = len(params) - len(a.defaults)
+        if len(call.args) < nreq or (len(call.args) > len(params) and a.vararg is None):
+            raise _NoInline("arity")
+        mapping: Dict[str, ast.expr] = {}
+        for i, p in enumerate(params):
+            mapping[p] = call.args[i] if i < len(call.args) else a.defaults[i - nreq]
+        extra = list(call.args[len(params):])
+        body = [st for st in h.body if not (isinstance(st, ast.Expr) and isinstance(st.value, ast.Constant) and isinstance(st.value.value, str))]
+        stores = {x.id for st in body for x in ast.walk(st) if isinstance(x, ast.Name) and isinstance(x.ctx, (ast.Store, ast.Del))}
+        if stores & set(params) or (a.vararg and a.vararg.arg in stores):
+            raise _NoInline("a parameter is re-bound in the helper")
+        # arguments must be simple enough to be evaluated at each use (names, attributes, constants)
+        for e in list(mapping.values()) + extra:
+            if not all(isinstance(x, (ast.Name, ast.Attribute, ast.Constant, ast.Load)) for x in ast.walk(e)):
+                raise _NoInline("argument with effects")
+        counter[0] += 1
+        rename = {n: f"_{h.name.strip('_')}{counter[0]}_{n}" for n in stores}
+
+        class Sub(ast.NodeTransformer):
+            def visit_Name(self, node):
+                if node.id in mapping and isinstance(node.ctx, ast.Load):
+                    return fresh(mapping[node.id])
+                if a.vararg and node.id == a.vararg.arg:
+                    raise _NoInline("*args used other than by forwarding it")
+                if node.id in rename:
+                    return ast.Name(id=rename[node.id], ctx=node.ctx)
+                return node
+
+            def visit_Call(self, node):
+                if a.vararg and any(isinstance(x, ast.Starred) and isinstance(x.value, ast.Name) and x.value.id == a.vararg.arg for x in node.args):
+                    new_args = []
+                    for x in node.args:
+                        if isinstance(x, ast.Starred) and isinstance(x.value, ast.Name) and x.value.id == a.vararg.arg:
+                            new_args.extend(fresh(e) for e in extra)
+                        else:
+                            new_args.append(self.visit(x))
+                    node.func = self.visit(node.func)
+                    node.args = new_args
+                    node.keywords = [self.visit(k) for k in node.keywords]
+                    return node
+                return self.generic_visit(node)
+        return [Sub().visit(st) for st in fresh_stmts(body)]
+
+    def tail_assign(stmts, target: Optional[str]) -> List[ast.stmt]:
+        """Every return is in tail position: replace it by an assignment to `target` (or drop it)."""
+        out = list(stmts)
+        for st in out[:-1]:
+            if any(isinstance(x, ast.Return) for x in ast.walk(st)):
+                raise _NoInline("return before the end of the helper")
+        if not out:
+            return out
+        last = out[-1]
+        if isinstance(last, ast.Return):
+            out.pop()
+            if target is not None:
+                out.append(ast.Assign(targets=[ast.Name(id=target, ctx=ast.Store())], value=last.value or ast.Constant(value=None), lineno=0))
+            return out
+        if isinstance(last, ast.If):
+            last.body = tail_assign(last.body, target) or [ast.Pass()]
+            last.orelse = tail_assign(last.orelse, target)
+            return out
+        if isinstance(last, ast.Try) and not last.finalbody:
+            if last.orelse:
+                if any(isinstance(x, ast.Return) for st in last.body for x in ast.walk(st)):
+                    raise _NoInline("return in a try body that has an else clause")
+                last.orelse = tail_assign(last.orelse, target) or [ast.Pass()]
+            else:
+                last.body = tail_assign(last.body, target) or [ast.Pass()]
+            for hd in last.handlers:
+                hd.body = tail_assign(hd.body, target) or [ast.Pass()]
+            return out
+        if any(isinstance(x, ast.Return) for x in ast.walk(last)):
+            raise _NoInline("return inside a loop of the helper")
+        if target is not None and not _terminates(out):
+            out.append(ast.Assign(targets=[ast.Name(id=target, ctx=ast.Store())], value=ast.Constant(value=None), lineno=0))
+        return out
+
+    def branch_returns(stmts, when_true: List[ast.stmt], when_false: List[ast.stmt], tail: bool) -> List[ast.stmt]:
+        """`if H(): when_true else: when_false` with H's body in place of the call: each `return <constant>` becomes the branch it selects.  A branch
+        that falls through is only allowed where the return was in tail position (what follows the if statement then follows naturally)."""
+        out: List[ast.stmt] = []
+        for i, st in enumerate(stmts):
+            is_last = tail and i == len(stmts) - 1
+            if isinstance(st, ast.Return):
+                if not (isinstance(st.value, ast.Constant) or st.value is None):
+                    raise _NoInline("the helper returns a computed value into a test")
+                br = when_true if (st.value is not None and bool(st.value.value)) else when_false
+                if not _terminates(br) and not is_last:
+                    raise _NoInline("a non-final return selects a branch that falls through")
+                out.extend(fresh_stmts(br))
+                return out
+            if isinstance(st, ast.If):
+                st.body = branch_returns(st.body, when_true, when_false, is_last) or [ast.Pass()]
+                st.orelse = branch_returns(st.orelse, when_true, when_false, is_last)
+            elif isinstance(st, ast.Try) and not st.finalbody:
+                st.body = branch_returns(st.body, when_true, when_false, is_last and not st.orelse) or [ast.Pass()]
+                for hd in st.handlers:
+                    hd.body = branch_returns(hd.body, when_true, when_false, is_last) or [ast.Pass()]
+                st.orelse = branch_returns(st.orelse, when_true, when_false, is_last)
+            elif any(isinstance(x, ast.Return) for x in ast.walk(st)):
+                raise _NoInline("return inside a loop of the helper")
+            out.append(st)
+        if tail and not _terminates(out):
+            # falling off the end of the helper returns None
+            out.extend(fresh_stmts(when_false))
+        return out
+
+    def rewrite_block(stmts: List[ast.stmt], d: int) -> List[ast.stmt]:
+        out: List[ast.stmt] = []
+        for idx, st in enumerate(stmts):
+            # recurse into compound statements first
+            for fld in ("body", "orelse", "finalbody"):
+                if isinstance(getattr(st, fld, None), list) and not isinstance(st, (ast.FunctionDef, ast.ClassDef, ast.Lambda)):
+                    setattr(st, fld, rewrite_block(getattr(st, fld), d))
+            if isinstance(st, ast.Try):
+                for hd in st.handlers:
+                    hd.body = rewrite_block(hd.body, d)
+            call = kind = None
+            neg = False
+            if isinstance(st, ast.Expr) and helper_of(st.value):
+                call, kind = st.value, "expr"
+            elif isinstance(st, ast.Assign) and len(st.targets) == 1 and isinstance(st.targets[0], ast.Name) and helper_of(st.value):
+                call, kind = st.value, "assign"
+            elif isinstance(st, ast.Return) and st.value is not None and helper_of(st.value):
+                call, kind = st.value, "return"
+            elif isinstance(st, ast.If):
+                t = st.test
+                while isinstance(t, ast.UnaryOp) and isinstance(t.op, ast.Not):
+                    t, neg = t.operand, not neg
+                if helper_of(t):
+                    call, kind = t, "if"
+            if call is None:
+                out.append(st)
+                continue
+            h = helper_of(call)
+            try:
+                if d <= 0:
+                    raise _NoInline("nesting depth")
+                body = body_for(h, call)
+                if kind == "expr":
+                    new = tail_assign(body, None)
+                elif kind == "assign":
+                    new = tail_assign(body, st.targets[0].id)
+                elif kind == "return":
+                    tmp = f"_{h.name.strip('_')}{counter[0]}_result"
+                    new = tail_assign(body, tmp) + [ast.Return(value=ast.Name(id=tmp, ctx=ast.Load()))]
+                else:
+                    yes, no = (st.orelse, st.body) if neg else (st.body, st.orelse)
+                    new = branch_returns(body, yes, no, True)
+                new = fresh_stmts(new)
+                out.extend(rewrite_block(new, d - 1))
+                inlined.append(h.name)
+            except _NoInline as ex:
+                refused.append(f"{h.name} at `{ast.unparse(call)}`: {ex}")
+                out.append(st)
+        return out
+
+    view = ast.parse(ast.unparse(f)).body[0]
+    view.body = rewrite_block(view.body, depth)
+    if not inlined:
+        return f, [], refused
+    view = ast.parse(ast.unparse(view)).body[0]
+    link_parents(view, getattr(f, "_parent", None))
+    return view, inlined, refused
+
+
 def expand(expr: ast.AST, defs: Dict[str, ast.expr], depth: int = 8) -> ast.AST:
     """Copy of ``expr`` with single-assignment locals replaced by their defining expressions."""
     class T(ast.NodeTransformer):
@@ -310,7 +531,8 @@ _ITERTOOLS = {"chain": itertools.chain, "itertools.chain": itertools.chain, "cha
 _NOOPS = {"log.msg", "log.err", "warnings.warn", "_log.failure", "_log.info", "_log.debug", "_log.warn", "_log.error", "log.info"}
 _OBJ_METHODS = {  # methods that may be called on plain Python values, by receiver type
     (str, bytes, bytearray): {"encode", "decode", "lower", "upper", "strip", "lstrip", "rstrip", "join", "startswith", "endswith", "find", "split",
-                              "replace", "title", "count", "index", "isdigit", "hex", "format", "rsplit", "partition", "zfill", "rjust", "ljust"},
+                              "replace", "title", "count", "index", "isdigit", "hex", "format", "rsplit", "partition", "rpartition", "zfill", "rjust", "ljust", "splitlines",
+                              "isalpha", "isalnum", "isspace", "islower", "isupper", "capitalize", "swapcase", "center", "expandtabs", "removeprefix", "removesuffix", "casefold"},
     (list,): {"append", "extend", "pop", "insert", "index", "count", "copy", "reverse", "sort", "remove", "clear"},
     (dict,): {"items", "keys", "values", "get", "pop", "copy", "setdefault", "update", "clear", "popitem"},
     (set,): {"add", "discard", "copy", "remove", "update"},
@@ -336,6 +558,19 @@ def _err_name(e: BaseException) -> str:
 def _plain(v):
     """DictInst -> its dict, for builtins such as len / sorted / list."""
     return v.data if isinstance(v, DictInst) else v
+
+
+def _has_internal(vals, depth: int = 2) -> bool:
+    for v in vals:
+        if isinstance(v, (Inst, Stub, Opaque, OpaqueInst, NativeModel, PyFn, Raised, GenValue)) and not isinstance(v, DictInst):
+            return True
+        if type(v).__name__ in ("_Closure", "_Bound", "_ClassRef", "_StubMethod", "_SuppressCM", "_GenCM", "_NullCM"):
+            return True
+        if depth > 0 and isinstance(v, (list, tuple, set, frozenset)) and _has_internal(list(v)[:50], depth - 1):
+            return True
+        if depth > 0 and isinstance(v, dict) and _has_internal(list(v.values())[:50] + list(v.keys())[:50], depth - 1):
+            return True
+    return False
 
 
 def _iterable(v, what: str = "iteration"):
@@ -800,12 +1035,29 @@ class MiniEval:
             self.depth -= 1
 
     def _pure(self, name: str, args: List[object], kw: Optional[Dict[str, object]] = None):
+        if name == "iter" and len(args) == 2 and not kw:
+            return self._sentinel_iter(args[0], args[1])
         try:
             return _PURE[name](*[_plain(a) for a in args], **(kw or {}))
         except _PY_ERRORS as e:
+            if isinstance(e, TypeError) and _has_internal(list(args) + list((kw or {}).values())):
+                # the builtin was handed an object of the interpreter (a model instance, a closure ...): Python's verdict about THAT object says nothing
+                # about the analysed program
+                raise Unsupported(f"{name}() applied to interpreter-level objects ({e})")
             raise Raised(_err_name(e))
         except StopIteration:
             raise Raised("StopIteration")
+
+    def _sentinel_iter(self, fn, sentinel):
+        """iter(callable, sentinel): lazily, the callable is called once per step (its effects interleave with the loop body)."""
+        def steps():
+            while True:
+                self._tick()
+                v = self.call_value(fn, [], {}, "iter() callable")
+                if self._compare(ast.Eq(), v, sentinel):
+                    return
+                yield v
+        return steps()
 
     def call_value(self, callee, args, kw, what="value"):
         kw = kw or {}
@@ -971,8 +1223,11 @@ class MiniEval:
             it = _iterable(_plain(self.expr(st.iter, env)))
             broke = False
             lazy = isinstance(it, GenValue)
+            # containers are iterated over a snapshot; iterators (generators, iter(f, sentinel), itertools objects, zip ...) step by step, so that what the
+            # body does between two steps is seen by the next one
+            snapshot = isinstance(it, (list, tuple, dict, set, frozenset, str, bytes, bytearray, range)) or type(it).__name__ in ("dict_items", "dict_keys", "dict_values")
             try:
-                for x in (it if lazy else list(it)):
+                for x in (list(it) if snapshot else it):
                     self._tick()
                     self.store(st.target, x, env)
                     r = self.block(st.body, env)
@@ -1644,6 +1899,8 @@ class MiniEval:
                     try:
                         return getattr(recv, f.attr)(*[_plain(a) for a in args], **kw)
                     except _PY_ERRORS as e:
+                        if isinstance(e, TypeError) and not isinstance(recv, (list, dict, set)) and _has_internal(list(args) + list(kw.values())):
+                            raise Unsupported(f"{type(recv).__name__}.{f.attr}() applied to interpreter-level objects ({e})")
                         raise Raised(_err_name(e))
             if isinstance(recv, (int, float, type(None), bool, tuple, str, bytes, list, dict, set)):
                 raise Raised("AttributeError")
